@@ -52,6 +52,8 @@ type c14Case struct {
 	Code      uint32 // forward: gRPC code returned by the handler
 	Msg       string
 	Cancelled bool   // forward: request context already cancelled
+	Timeout   string `json:",omitempty"` // forward: GRPC-Timeout header of the request (e.g. "1n": the handler's own deadline passes, the request lives on)
+	OKErr     bool   `json:",omitempty"` // forward: the handler returns a non-nil error whose gRPC status says OK
 	Renderer  string // "default" | "nothing" | "teapot" | "option-default"
 	Carrier   string // "server" | "mux"
 	HTTP      int    // fallback: HTTP status
@@ -86,6 +88,9 @@ func c14Forward(c c14Case, o *Outcome) *Outcome {
 	o.class("forward/cancelled=%v", c.Cancelled)
 	o.NonTrivial = c.Code != 0
 	svc := &Service{Unary: func(ctx context.Context, req *pb.Message) (*pb.Message, error) {
+		if c.OKErr {
+			return nil, okStatusErr{}
+		}
 		if c.Code == 0 {
 			return &pb.Message{Count: 7}, nil
 		}
@@ -116,11 +121,36 @@ func c14Forward(c c14Case, o *Outcome) *Outcome {
 	}
 	req := httptest.NewRequest("POST", "http://verif.test"+mUnary, bytes.NewReader(nil)).WithContext(ctx)
 	req.Header.Set("Content-Type", httpgrpc.UnaryRpcContentType_V1)
+	if c.Timeout != "" {
+		req.Header.Set("Grpc-Timeout", c.Timeout)
+		o.class("forward/with-grpc-timeout")
+	}
 	w := httptest.NewRecorder()
 	h.ServeHTTP(w, req)
 	res := w.Result()
 	obs := map[string]interface{}{"http_status": res.StatusCode, "x_grpc_status": res.Header.Get("X-Grpc-Status")}
 	o.Observed = obs
+	if c.OKErr {
+		// the handler failed: whatever its status claims, the reply must be an error
+		o.class("forward/ok-status-error")
+		o.NonTrivial = true
+		if (c.Renderer == "default" || c.Renderer == "option-default") && res.StatusCode < 400 {
+			return o.failf("handler returned an error (with an OK status inside): HTTP status %d", res.StatusCode)
+		}
+		body, _ := io.ReadAll(res.Body)
+		ch := &httpgrpc.Channel{BaseURL: baseURL, Transport: rtFunc(func(r *http.Request) (*http.Response, error) {
+			rr := *res
+			rr.Body = io.NopCloser(bytes.NewReader(body))
+			rr.Request = r
+			return &rr, nil
+		})}
+		err := ch.Invoke(context.Background(), mUnary, &pb.Message{}, new(pb.Message))
+		obs["client_err"] = errStr(err)
+		if err == nil {
+			return o.failf("handler returned an error (with an OK status inside), renderer %s: the client reports success (X-GRPC-Status %q, HTTP %d)", c.Renderer, res.Header.Get("X-Grpc-Status"), res.StatusCode)
+		}
+		return o
+	}
 
 	// (1) HTTP status by the documented table (default renderer only).
 	if c.Renderer == "default" || c.Renderer == "option-default" {
@@ -243,6 +273,14 @@ func c14Enumerate() []c14Case {
 			for _, r := range []string{"default", "nothing", "teapot", "option-default"} {
 				for _, car := range []string{"server", "mux"} {
 					cs = append(cs, c14Case{Mode: "forward", Code: code, Msg: "m", Cancelled: canc, Renderer: r, Carrier: car})
+					if code == 1 || code == 4 || code == 2 {
+						// the handler's own deadline (from GRPC-Timeout) has passed, the HTTP request is alive:
+						// the 499 rule is about the request, not about that deadline
+						cs = append(cs, c14Case{Mode: "forward", Code: code, Msg: "m", Cancelled: canc, Renderer: r, Carrier: car, Timeout: "1n"})
+					}
+					if code == 0 && !canc {
+						cs = append(cs, c14Case{Mode: "forward", OKErr: true, Renderer: r, Carrier: car})
+					}
 				}
 			}
 		}
@@ -267,7 +305,8 @@ func genC14(t *rapid.T) c14Case {
 		Msg:       rapid.StringMatching(`[a-zA-Z0-9:%;,./ _-]{0,40}[a-zA-Z0-9]`).Draw(t, "msg"),
 		Cancelled: rapid.Bool().Draw(t, "cancelled"),
 		Renderer:  rapid.SampledFrom([]string{"default", "nothing", "teapot", "option-default"}).Draw(t, "renderer"),
-		Carrier:   rapid.SampledFrom([]string{"server", "mux"}).Draw(t, "carrier")}
+		Carrier:   rapid.SampledFrom([]string{"server", "mux"}).Draw(t, "carrier"),
+		Timeout:   rapid.SampledFrom([]string{"", "", "1n", "0m", "1H"}).Draw(t, "timeout")}
 }
 
 func init() { registerReplay("C14", propC14) }
